@@ -601,6 +601,10 @@ class LibsModel:
         if ty in ('list', 'set'):
             return self.list_method(interp, st, recv, name, args, kwargs, node, frame, d)
         if ty == 'str':
+            if name in ('split', 'rsplit', 'partition', 'rpartition', 'splitlines'):
+                # a piece of the text: two different texts can share it
+                ld = frozenset((x + '#part') if (x.startswith('param:') and '#' not in x) else x for x in (d or ()))
+                return AV(ty='tuple' if 'partition' in name else 'list', elem=AV(ty='str', deps=ld), deps=ld)
             if name in ('join', 'format', 'capitalize', 'rjust', 'lower', 'upper', 'strip', 'replace', 'group'):
                 return AV(ty='str', deps=d)
             if name == 'encode':
@@ -615,7 +619,12 @@ class LibsModel:
         if ty == 'hash':
             return AV(ty='str', deps=d)
         if ty == 'Path':
-            if name in ('with_suffix', 'with_name', 'resolve', 'absolute', 'joinpath'):
+            if name == 'with_name':
+                # only the directory of the receiver survives; the file name is replaced by the argument
+                rd = frozenset((x + '#dir') if (x.startswith('param:') and '#' not in x) else x for x in (recv.deps or ()))
+                ad = frozenset().union(*[a.deps or frozenset() for a in args]) if args else frozenset()
+                return AV(ty='Path', deps=rd | ad, truthy=True)
+            if name in ('with_suffix', 'resolve', 'absolute', 'joinpath'):
                 return AV(ty='Path', deps=d, truthy=True)
             if name == 'exists':
                 interp.emit('path_exists', node, path=recv)
